@@ -244,6 +244,8 @@ def gen_history(seed, tier, prop, kinds_allowed):
         else:
             scn['mia'] = {'lo': -2, 'hi': 2, 'bins': r.choice([4, 7])}
         scn['mia_precision'] = r.choice([None, None, 'float64'])
+        if prop == 'C16' and rng.stream(seed, 'miaauto').random() < 0.3:
+            scn['mia']['auto_edges'] = True
     scn['m'] = m
     # storage dtype of the intermediate values (selection functions / models return various integer widths; CPA also takes floats)
     dd = rng.stream(seed, 'ddtype')
